@@ -154,6 +154,12 @@ pub enum Touch {
 }
 
 fn build_graph_program(entries: &[Stage], k: usize, dag_mask: usize, entry_calls: &[usize], form: CallForm, kinds_offset: usize, touch_mode: Touch, descending: bool, key: String) -> Prog {
+    build_graph_program_b(entries, k, dag_mask, entry_calls, form, kinds_offset, touch_mode, descending, false, key)
+}
+
+/// `reverse_bindings`: declaration order has descending @binding indices.
+#[allow(clippy::too_many_arguments)]
+fn build_graph_program_b(entries: &[Stage], k: usize, dag_mask: usize, entry_calls: &[usize], form: CallForm, kinds_offset: usize, touch_mode: Touch, descending: bool, reverse_bindings: bool, key: String) -> Prog {
     // helpers h0..h{k-1}; forward edges (i<j) numbered lexicographically
     let mut fns: Vec<FnSpec> = vec![];
     let mut edge = 0;
@@ -200,10 +206,13 @@ fn build_graph_program(entries: &[Stage], k: usize, dag_mask: usize, entry_calls
     let mut binding = 0u32;
     let mut touch = vec![];
     if touch_mode == Touch::Own {
+        // with reversed bindings the first declared resource gets the highest index
+        let total_slots: u32 = (0..nf).map(|i| ResKind::BINDABLE[(i + kinds_offset) % ResKind::BINDABLE.len()].slots()).sum();
         for i in 0..nf {
             let kind = ResKind::BINDABLE[(i + kinds_offset) % ResKind::BINDABLE.len()];
             let name = format!("r{i}");
-            let (d, vars) = kind.decl(&name, 0, binding);
+            let this_binding = if reverse_bindings { total_slots + 1 - binding - kind.slots() } else { binding };
+            let (d, vars) = kind.decl(&name, 0, this_binding);
             decls.push_str(&d);
             for (vn, b) in vars {
                 expect.push((vn, 0, b, stages[i]));
@@ -234,9 +243,10 @@ fn build_graph_program(entries: &[Stage], k: usize, dag_mask: usize, entry_calls
         }
     }
     // one more resource nobody touches
-    let (d, vars) = ResKind::Uniform.decl("untouched", 0, binding);
+    let ub = if reverse_bindings { 0 } else { binding };
+    let (d, vars) = ResKind::Uniform.decl("untouched", 0, ub);
     decls.push_str(&d);
-    expect.push((vars[0].0.clone(), 0, binding, ShaderStages::NONE));
+    expect.push((vars[0].0.clone(), 0, ub, ShaderStages::NONE));
 
     let value = form.is_value();
     let mut src = decls;
@@ -308,6 +318,10 @@ pub fn space_a_k(thorough: bool, max_k: usize) -> Vec<Prog> {
                         // the order in which a function calls its callees (callee-of-callee reached first or last)
                         let multi_call = calls.iter().any(|c| c.count_ones() >= 2) || (0..n_edges).filter(|e| dag & (1 << e) != 0).count() >= 2;
                         let variants = thorough || k <= 2 || entries.len() <= 2;
+                        // declaration order vs binding index order (layout entries are emitted per declaration)
+                        if *form == CallForm::Stmt && entries.len() >= 2 {
+                            out.push(build_graph_program_b(&entries, k, dag, &calls, *form, off, Touch::Own, false, true, format!("{key}|bindings=desc")));
+                        }
                         if variants && multi_call && matches!(form, CallForm::Stmt | CallForm::Let) {
                             out.push(build_graph_program(&entries, k, dag, &calls, *form, off, Touch::Own, true, format!("{key}|order=desc")));
                         }
